@@ -7,7 +7,7 @@ CLAIMED = {
              "normal and exceptional exits) is replayed on the real Terminal.map_fmmu for n=1..4 and the "
              "recorded run (slot, register writes, fmmu_used after every step) is validated by TLC as a "
              "behaviour of the spec. Exhaustive within the bound, which is the right level for a small "
-             "slot table whose bugs are index-arithmetic cases.",
+             "slot table whose bugs are index-arithmetic cases. Later widened: mappings of one terminal entered concurrently (one task each, the bus stub suspends at every register access), events in completion order.",
         note="Trusts TLC, the bus stub that records register writes, and that fmmu_used is the master's "
              "table. Scripts longer than the bound and more than 3 concurrent mappings are not explored.",
         technique="TLA+ spec Fmmu + TLC exhaustive model check; TLC-enumerated scripts replayed on real "
@@ -33,7 +33,7 @@ CLAIMED = {
              "Fixed-seed well-formed EEPROM images x TLC-enumerated interface scripts (read width, busy "
              "durations) run the real read_eeprom / parse_sync_managers / parse_pdos (EEPROM and SDO source) "
              "and EtherCat.eeprom_read over a simulated bus; TLC evaluates SiiImage.tla on each image and "
-             "judges every returned value; register-access traces are validated against Sii.tla.",
+             "judges every returned value; register-access traces are validated against Sii.tla. Later widened: boundary category types (0, 1, 0x00FF, 0x7FFF, 0x8000, 0xFFFE) with 0-2 words first, in the middle and last.",
         note="Images are sampled, not exhaustive; ill-formed images are outside the precondition. Trusts "
              "simbus' SII model (its register behaviour is itself trace-validated) and a minimal expedited "
              "CoE upload server.",
@@ -76,7 +76,7 @@ CLAIMED = {
              "variables) run the real SyncGroup.start()/run() for 4-8 cycles on a virtual-time loop and a "
              "simulated bus with scripted inputs and returned working counters (correct, off by a few, 0, and "
              ">= 256 with matching or non-matching low byte); TLC validates every trace (frames, responses, "
-             "what devices saw and set, wkc_errors).",
+             "what devices saw and set, wkc_errors). Later widened: frames lost or answered late from the second cycle on (environment action Lose): what is resent carries the current outputs and cleared counters, and wkc_errors does not move.",
         note="Expected counters are derived in the spec from the configuration, not read from the code. No "
              "lost, late or duplicated cyclic frames; cycle 1's error count is not judged.",
         technique="TLA+ spec SlowCycle + TLC exhaustive model; real SyncGroup.run on a simulated bus; TLC "
@@ -107,7 +107,7 @@ CLAIMED = {
              "4 thorough; moving times {0,1,3}; both safe-state settings), each replayed on a real Valve whose "
              "coil and switches are bit variables of a real SyncGroup frame, with the module clock replaced by "
              "a virtual one; TLC validates coil, target and error after every update. Seeded longer histories "
-             "are added on top.",
+             "are added on top. Later widened: TLC-enumerated group histories of 1-3 Valve objects in one sync group, each valve judged by its own instance of the Valve spec.",
         note="As the property states, the position check is prescribed for the default safe state only; for "
              "safeState = True only the error reaction is judged. Resets in mid-history are not explored. "
              "'Elapsed' is read as now - lastGood >= movingTime.",
@@ -138,7 +138,7 @@ CLAIMED = {
              "varied start orders and delays; the mailbox headers seen by the terminal are validated by TLC. "
              "Cross-process: TLC enumerates system-call schedules for two participants including the creation "
              "window; each is replayed on the real LockFile / ParallelMailboxLock in two OS processes with "
-             "gated os/fcntl calls, and TLC validates lock outcomes, file bytes and counters.",
+             "gated os/fcntl calls, and TLC validates lock outcomes, file bytes and counters. Later widened: lock holds that end by exception or cancellation (TLC chooses per hold), aborting exchanges end to end on the cross-process lock, and tasks of one process sharing one cross-process lock.",
         note="Interleaving at system-call granularity; two participants replayed (three in the model); POSIX "
              "record-lock semantics are those of the sandbox kernel. Unrelated mail is kept out of these "
              "scripts (it belongs to C16).",
@@ -173,7 +173,7 @@ CLAIMED = {
              "validates clause by clause: accept/reject, returned (start, stop), and the bytes of assemble / "
              "sterile (length field and type nibble, identification datagram, every header and 'more' flag, data "
              "and counter at the reported positions, size <= 1500, padding to 46, sterile copy equal except NOP "
-             "in the writers' command byte).",
+             "in the writers' command byte). Later widened: frames with equal datagrams (the last equal to an earlier one, an earlier pair, all equal).",
         note="The 15-datagram count limit is not demanded: a rejection for count is bound from the first such "
              "rejection and then held. IRQ bytes and padding values are free. Addresses stay in the ranges "
              "struct.pack accepts.",
@@ -221,7 +221,7 @@ CLAIMED = {
              "rotating destinations incl. registers and locals; fixed-seed random trees of depth 2-3), the "
              "emitted bytecode is executed by TLC on the eBPF machine from several input vectors (small, "
              "negative, boundary, random), and the destination's final bytes must be an admissible value "
-             "reduced to the destination whenever the precondition holds.",
+             "reduced to the destination whenever the precondition holds. Later widened: hash-map variables as operands and destinations, every fourth statement inside a temporary's block, every second register destination also an operand, and the `register + constant` class under every operator.",
         note="Bounded depth and sampled inputs, not all programs. The precondition is read conservatively: a "
              "case outside it is skipped, never judged (about 17% of runs). Two recorded known findings "
              "(signed // % emitted unsigned; sw register not sign-extended for an 8-byte destination) are "
@@ -245,7 +245,7 @@ CLAIMED = {
              "specification is given their exact scaled integers; fixed-point inputs are assigned from Python through "
              "the real descriptor and the specification checks the stored bytes are the exact scaled integer. TLC "
              "executes the emitted bytecode on the eBPF machine and judges the destination bytes / the markers; the "
-             "result is read back through the real Python descriptor and must be the float nearest to raw/100000.",
+             "result is read back through the real Python descriptor and must be the float nearest to raw/100000. Later widened: hash-map variable operands (incl. fixed-point ones), statements inside a temporary's block, plain assignments of every constant (conversion only), values beyond 32 bits in every vector; the precondition scales each operand only as far as its own operation needs.",
         note="Depth-1 statements and sampled input values (boundary and fixed-seed), 8-byte operands only. Outside "
              "the precondition a case is skipped, never judged. One recorded known finding (F1: division emitted "
              "unsigned) is matched by a flag the spec computes by stepping the case's own bytecode: a DIV or MOD "
@@ -266,7 +266,7 @@ CLAIMED = {
              "12 condition shapes x 5 block shapes from fixed seeds; TLC executes the emitted bytecode on the "
              "eBPF machine from input vectors drawn around each program's constants (incl. equal operands and "
              "positive-versus-minus-one), and the markers found set must equal Exec. 58% of judged programs "
-             "were observed on two or more different paths in the quick tier.",
+             "were observed on two or more different paths in the quick tier. Later widened: hash-map variable operands, programs inside a temporary's block, and conditions over fixed-point and mixed operands (C02's comparison statements, judged by Fixed.tla).",
         note="Bounded depth and sampled inputs. A condition outside the precondition on the executed path makes the "
              "case skipped. One recorded known finding (the sw register view compared without sign extension "
              "against a 64-bit operand) is matched by a predicate the spec evaluates; a program that has it AND "
@@ -284,7 +284,7 @@ CLAIMED = {
              "real PacketVar descriptors and pB/pH/pI/pQ accesses under minimumPacketSize and explicit "
              "packetSize comparisons with Else; every packet length from 0 to guard+size+2 with fixed-seed "
              "contents and boundary field values. Every program is also loaded into the kernel and a large "
-             "sample of runs is cross-checked (machine = kernel) when bpf() is available.",
+             "sample of runs is cross-checked (machine = kernel) when bpf() is available. Later widened: both operands of a statement carry a format of their own (32 x 32 format pairs, five statement kinds).",
         note="Grid is sampled in the quick tier (about a third). Lengths between the guard and the access need are "
              "left free, as the property text allows. '=' and '@' prefixes, register-valued offsets, bit-field "
              "and multi-element formats in packets are not covered.",
@@ -303,7 +303,7 @@ CLAIMED = {
              "class; from the repaired one every bounded-preemption behaviour and random behaviours. All are replayed on "
              "the real code in one OS process per participant with gated system calls (a participant blocked in flock / "
              "lockf is recognised, no timeouts); TLC evaluates the invariants on the observed states and checks every "
-             "observed step against the repaired model (100 % on /repo).",
+             "observed step against the repaired model (100 % on /repo). Later widened: start-up calls (connect, create_map, attach, pin, obj_get) may fail, the error handlers are steps; the design is verified with one failing call and failing calls are injected in the replay.",
         note="Verdict = invariants on observed states; model conformance is reported, not gated. bpf / XDP calls are "
              "recorders with kernel semantics; granularity is the system call. Removing the mutex or un-mutexing the "
              "stop block is caught through the old-protocol windows; reverting the FMMULock repair only through the "
@@ -325,7 +325,7 @@ CLAIMED = {
              "end of the second cycle (thorough: and a second cancel at every later iteration); the fast kind "
              "uses a real kernel program table with the group program really loaded; the real "
              "ProcessSyncGroup.start() spawns its child and is cancelled before its first step, while booting, "
-             "while cycling and at an exit race. TLC validates every recorded run.",
+             "while cycling and at an exit race. TLC validates every recorded run. Cancelled after every event-loop iteration up to the end of cycle 2, x every later iteration for a second cancel, x every iteration later still for a third (three-writer configurations; thorough: all gating configurations).",
         note="Exhaustive over cancellation iterations for the listed configurations, not over configurations. The "
              "child runs a stand-in ParallelEtherCat.run (no NIC). The harness translates lookup_elem's KeyError "
              "into the OSError register_sync_group waits for (see DESIGN.md 10, observation). The FMMU "
@@ -340,7 +340,7 @@ CLAIMED = {
              "instances, and bytes refining cells, model-checked. Fixed-seed random DeviceVar class sets (23 "
              "formats incl. x and multi-element, subclasses, redeclarations) on a real ProcessSyncGroup whose "
              "child is really spawned through the library's own start() path; parent and child alternate "
-             "scripted reads and writes; TLC validates the merged history and the layout seen by each side.",
+             "scripted reads and writes; TLC validates the merged history and the layout seen by each side. Later widened: decimals whose float product with 100000 falls below the integer in the fixed-point value pool.",
         note="Turn-taking only (no concurrent access to one variable); in-range values; class sets are sampled.",
         technique="TLA+ spec SharedVars + TLC model check; real parent and spawned child processes; TLC batched trace "
                   "validation",
@@ -371,7 +371,7 @@ CLAIMED = {
              "offsets and decoy channels, size overrides, bits, formats BHIQbhiq, FMMU and direct addressing) and "
              "devices whose update() and program() are the same statements run on both paths: the Python path on "
              "a real SyncGroup's frame buffer, the program path as the emitted FastSyncGroup bytecode executed by "
-             "TLC on the same frame. Both must equal Get / Set, hence each other; four frames per configuration.",
+             "TLC on the same frame. Both must equal Get / Set, hence each other; four frames per configuration. Later widened: every fifth configuration takes its PDO map from the real parse_pdos over generated SII PDO categories with gap entries (true places computed from the lengths alone).",
         note="Region starts are read from the frame, not from pdo_assign. Devices linking a WHOLE Struct cannot be "
              "grouped at all (Device.get_terminals reads .sm of the Struct): counted as an observation in the "
              "evidence, not judged, since there is then no access for C19 to speak about. Byte-order prefixes "
@@ -390,7 +390,7 @@ CLAIMED = {
              "returned counters x output enabled / disabled; the real FastSyncGroup.run / update_devices are "
              "driven under virtual time for the frames user space emits; and over the dispatcher histories of "
              "C22 no frame returns to the bus with enabled write datagrams unless the group's program processed "
-             "it in that pass. Every pass is re-run on the real kernel (machine = kernel).",
+             "it in that pass. Every pass is re-run on the real kernel (machine = kernel). Later widened: every terminal class that lays out its own datagrams (overrides allocate; found by introspection, today AerotechBase) in four layout shapes.",
         note="Expected counters and the set of write datagrams are computed in the spec from the reference frame "
              "and the configuration. A wrap of wkc_errors at 2^32 is modular.",
         technique="TLA+ specs FastGroupFrame / FastGroup over the eBPF machine; TLC executes the real emitted "
@@ -407,7 +407,7 @@ CLAIMED = {
              "deliveries in any order, losses, injections, enabling and unregistering with at most three frames "
              "in flight: never dropped; foreign frames pass unchanged; frames of an unregistered group reach "
              "user space with the ethertype of the identification datagram; at most two consecutive deliveries "
-             "without the group's program.",
+             "without the group's program. Later widened: frames whose identification index agrees with a group number in its low 8 / 16 / 24 bits only (they must leave the group alone and reach user space); transitions that depend on the kernel's random number are judged with the value 0.",
         note="Age bound K = 4 (quick, 20 counter values across the 255->0 wrap) / 8 (thorough, all 256). User "
              "space injects only while the group is registered (as FastSyncGroup.run does). One recorded known "
              "finding: with out-of-order returns three consecutive deliveries go by without the group's program "
@@ -427,7 +427,7 @@ CLAIMED = {
              "format or from a variable plus a constant (hash-map accesses need key temporaries, spilled values and "
              "saved registers; Dict.update() reads the members), then the program itself copies every stack variable "
              "into an array variable of its own. TLC executes the emitted bytecode on the eBPF machine from random "
-             "initial memory and compares every observable variable (array, hash and packet memory) with the store.",
+             "initial memory and compares every observable variable (array, hash and packet memory) with the store. Later widened: fixed-point members followed by narrow ones in Dict key / value structures.",
         note="Random programs (fixed seed plus a share following VERIF_SEED), not all programs; stack variables are "
              "observed through the program's own later reads, so a temporary reusing the slot of a variable nobody "
              "reads any more is not reported. A program that does not run to its end on the machine is not judged here "
@@ -451,7 +451,7 @@ CLAIMED = {
              "constant shifts and divisors, jump targets, pointer arithmetic) explored by TLC over ALL paths, (3) "
              "one concrete run on the eBPF machine. A kernel rejection is a violation; the model decides alone "
              "when bpf() is unavailable. The model and the kernel are calibrated in every run on deliberately "
-             "broken bytecode that both must reject.",
+             "broken bytecode that both must reject. The model is Verifier2.tla (Verifier.tla plus the corrections found by X10's differential testing against the kernel); the corpus also holds C02's, C04's and X08's programs and constant shifts at the edges of the operation's width.",
         note="Kernel and model agreed on every program of the corpus (1 676 accepted and 9 rejected by both before "
              "the repair of F33; all accepted after). The model keeps two portable rules this kernel has relaxed "
              "and has no scalar range tracking: model-only rejections would be reported as imprecision, not judged. "
@@ -469,7 +469,7 @@ CLAIMED = {
              "type(), positions and map size read from the real objects and judged by TLC. Histories of Python "
              "writes, real emitted programs and Python reads run on the real kernel map (every program run "
              "repeated on the eBPF machine and compared) and in lock-step on the machine alone; TLC validates "
-             "every history.",
+             "every history. Later widened: byte-order-prefixed formats and in-place `+=` / `-=` on every format.",
         note="Declaration sets bounded as stated; histories sampled with fixed seeds. Conversions between fixed-point "
              "and integer variables belong to C01 / C02.",
         technique="TLA+ specs Layout + Store; TLC-enumerated declaration sets on the real classes; real programs on "
@@ -484,7 +484,7 @@ CLAIMED = {
              "update / delete / pop / iteration sequences from both sides: program-side operations are real "
              "emitted programs (update(), lookup() with Else, member access through the looked-up pointer, "
              "variable get / set) run on the kernel and on the eBPF machine, Python-side operations the real "
-             "classes on the real kernel map (or a fake kernel); TLC validates the merged history.",
+             "classes on the real kernel map (or a fake kernel); TLC validates the merged history. Later widened: update flags by NAME on both sides (insert-only / modify-only judged by meaning), decimals whose float product falls below the integer in every fixed-point value pool.",
         note="LRU Dicts are not compared (contents unspecified after updates). Out-of-range writes and concurrent "
              "writers are not covered.",
         technique="TLA+ spec Store (hash part) + Layout; real programs on kernel and eBPF machine; TLC trace validation",
@@ -498,7 +498,7 @@ CLAIMED = {
              "library's single syscall wrapper is recorded with the measured lengths of the Python buffers behind "
              "it while the whole user-space API is driven (array maps, per-CPU read(), hash variables of every "
              "format, Dict set / get / pop / del / iteration) on fixed-seed randomly declared maps, on this host and "
-             "on simulated hosts with more possible than online CPUs; TLC validates the event list.",
+             "on simulated hosts with more possible than online CPUs; TLC validates the event list. Later widened: a per-CPU map extended in a subclass with instances of both classes; simulated hosts answer every source of a CPU count consistently (possible >= online >= process affinity), and the real host pinned to one CPU.",
         note="Trusts the fake kernel's transfer sizes (taken from kernel/bpf/syscall.c) and the frame walk that finds "
              "the buffers. mmap-ed array maps carry no obligation.",
         technique="TLA+ spec BpfCalls + TLC exhaustive model check; TLC trace validation of recorded bpf() events",
